@@ -136,7 +136,7 @@ def run(chk):
         L1m.settle(chk, obs, bat, key)
     rest = [o for o in chk.obs if id(o) not in taken and not o.ok() and not o.verdict.startswith("uncovered")]
     L1m.settle(chk, rest, lambda: validity_battery(chk.seed), "point formulas (internal)")
-    chk.extra.pop("setext_accept_polys", None)
+    chk.extra.pop("setext_accept_polys", None); chk.extra.pop("setext_reject_polys", None)
     chk.samples = [o.j() for o in chk.obs if "well-defined group element" in o.name or "output satisfies" in o.name][:6]
 
 
